@@ -10,7 +10,7 @@ import (
 func init() {
 	props["C06"] = &propCheck{
 		lean:    []string{"JSight.Props.C06", "JSight.Props.C06_Obeys"},
-		exes:    []string{"jsight-ctx"},
+		exes:    []string{"jsight-ctx", "jsight-build"},
 		run:     runC06,
 		assume:  []string{"the theorems are about the frame-stack model of the parent-pointer code; the equivalence is the tree correspondence", "directive attributes read by the resolution (kind, Path parameter, parenthesis) are delivered by the scanner as modelled under C14"},
 		rule:    "all sequences of the directive kinds (INCLUDE excluded) with '(' after any directive and ')' at any point up to the length bound, HTTP methods with and without a path, random sequences beyond it; each sequence is rendered with minimal valid parameters and bodies; non-trivial = at least one directive is placed by walking up at least one level or at least one context is closed; distinct = distinct token sequence",
@@ -114,6 +114,7 @@ func ctxSpecPlace(stack []CTok, d CTok) int {
 }
 
 func runC06(ctx *Ctx) {
+	c06ParenBalance(ctx)
 	al := ctxAlphabet()
 	var seqs [][]CTok
 	depth := ctx.Len(2, 3)
@@ -268,4 +269,68 @@ func ctxSpecResolve(tt []CTok) (string, bool) {
 		show(n)
 	}
 	return b.String(), walked
+}
+
+// c06ParenBalance: the parentheses of a document, as BYTES (the token-level searches above give every directive at most
+// one parenthesis): from accepted documents with parenthesised contexts, every document obtained by writing one "(" twice,
+// one ")" twice, or by deleting one of them leaves a parenthesis open at the end of the input or closes one that was not
+// opened, and must be rejected; the composed model reads the same bytes.
+func c06ParenBalance(ctx *Ctx) {
+	bases := []string{
+		"JSIGHT 0.3\nGET /a\n(\n  200 any\n)\n",
+		"JSIGHT 0.3\nURL /a\n(\n  GET\n  (\n    200\n    (\n      Body any\n    )\n  )\n)\nGET /b\n  200 any\n",
+		"JSIGHT 0.3\nTYPE @t\n(\n{}\n)\nGET /a\n  200 @t\n",
+		"JSIGHT 0.3\nMACRO @m\n(\n  200 any\n)\nGET /a\n(\n  PASTE @m\n)\n",
+		"JSIGHT 0.3\nINFO\n(\n  Title \"t\"\n  Description\n  (\n    text\n  )\n)\nGET /a\n  200 any\n",
+		"JSIGHT 0.3\nURL /r\n(\n  Protocol json-rpc-2.0\n  Method foo\n  (\n    Params\n    (\n    {}\n    )\n  )\n)\n",
+	}
+	var docs [][]byte
+	cases := 0
+	for bi, base := range bases {
+		if !RunProject(SingleFile([]byte(base)), false).Accepted() {
+			ctx.Break(fmt.Sprintf("parenthesis balance: the base document %d is not accepted", bi))
+			continue
+		}
+		docs = append(docs, []byte(base))
+		lines := strings.SplitAfter(base, "\n")
+		inDescr := false
+		for li, l := range lines {
+			t := strings.TrimSpace(l)
+			if t == "Description" {
+				inDescr = true
+				continue
+			}
+			if t != "(" && t != ")" {
+				continue
+			}
+			if inDescr { // the parentheses of a description's text are not contexts
+				if t == ")" {
+					inDescr = false
+				}
+				continue
+			}
+			for _, edit := range []string{"doubled", "deleted"} {
+				var nl []string
+				nl = append(nl, lines[:li]...)
+				if edit == "doubled" {
+					nl = append(nl, l, l)
+				}
+				nl = append(nl, lines[li+1:]...)
+				doc := strings.Join(nl, "")
+				docs = append(docs, []byte(doc))
+				res := RunProject(SingleFile([]byte(doc)), false)
+				cases++
+				ctx.Cov.Count([]byte(doc), true)
+				ctx.Cov.Hit("a parenthesis " + edit)
+				if res.Panic == "" && res.Accepted() {
+					in := projectInput(SingleFile([]byte(doc)))
+					in["op"] = "doc"
+					ctx.Violate(Violation{Kind: "wrong-output", Site: "context", What: fmt.Sprintf("the %q of line %d %s: the parentheses no longer balance, yet the document is accepted", t, li+1, edit),
+						Input: in, Observed: "accepted", Expected: "rejected", Signature: "paren-balance:" + t + " " + edit})
+				}
+			}
+		}
+	}
+	ctx.Cov.Component("parentheses written twice / deleted in accepted documents => rejected (specification on the implementation)", cases, len(ctx.Violations), "")
+	projectCorrespondence(ctx, docs, nil, "documents with unbalanced parentheses")
 }
